@@ -554,6 +554,11 @@ func applyPush(ctx Context, doc bsonkit.Doc, name, path string, v interface{}) e
 	// pre-modifier behavior). Anything that can shift elements ($position not
 	// at end, $sort, $slice) records the whole array.
 	changes := ctx.Value.(*Changes)
+	if field == bsonkit.Missing {
+		// the push created the array: an element path like "foo.0" would
+		// describe a document key when applied to the previous version
+		return changes.Record(path, newArr)
+	}
 	if !hasSort && !hasSlice && insertAt == len(arr) {
 		startIdx := insertAt
 		for i, val := range values {
